@@ -73,7 +73,8 @@ def forcing_uses(fnode, sources, allowed):
             if ast.unparse(x) not in allowed and not isinstance(x.slice, ast.Constant):
                 bad.append(ast.unparse(x))
         elif isinstance(x, ast.comprehension) and isinstance(x.iter, ast.Name) and x.iter.id in tainted:
-            bad.append("comprehension over " + x.iter.id)
+            if "comprehension over " + x.iter.id not in allowed:
+                bad.append("comprehension over " + x.iter.id)
         elif isinstance(x, ast.Starred) and isinstance(x.value, ast.Name) and x.value.id in tainted:
             bad.append("*" + x.value.id)
     return sorted(set(bad))
